@@ -111,8 +111,20 @@ func acceptedShapeAtoms() []OutsideAtom {
 	dc := func(id, code string) OutsideAtom {
 		return OutsideAtom{ID: "shape_" + id, Kind: "decl", Code: strings.ReplaceAll(code, "ID", "shape_"+id), Site: "accepted shape: " + id}
 	}
-	_ = stNoLoop
 	return []OutsideAtom{
+		st("slice3_nolow", "t := s[:2:3]\n\tt = append(t, 9)\n\tt = append(t, 8)\n\tx += s[2] + s[3] + uint64(len(t))"),
+		st("slice3_nolow_cap", "t := s[:1:2]\n\tx += uint64(cap(t))*10 + uint64(len(t))"),
+		st("slice3_full", "t := s[1:2:3]\n\tt = append(t, 9)\n\tt = append(t, 8)\n\tx += s[2] + s[3] + uint64(len(t))"),
+		st("slice3_bytes_nolow", "bt := bs[:1:1]\n\tbt = append(bt, 7)\n\tx += uint64(bs[1]) + uint64(len(bt))"),
+		stNoLoop("go_samename_var", "gw := new(sync.WaitGroup)\n\tgw.Add(1)\n\tgo func(x uint64) {\n\t\t*q = *q + x\n\t\tgw.Done()\n\t}(x)\n\tx = x + 100\n\tgw.Wait()\n\tx += *q"),
+		stNoLoop("go_samename_define", "gw := new(sync.WaitGroup)\n\tgw.Add(1)\n\tgo func(y uint64) {\n\t\t*q = *q + y\n\t\tgw.Done()\n\t}(y)\n\tx = x + 100\n\tgw.Wait()\n\tx += *q"),
+		stNoLoop("go_samename_loopvar", "gw := new(sync.WaitGroup)\n\tgw.Add(2)\n\tfor i := uint64(0); i < 2; i++ {\n\t\tgo func(i uint64) {\n\t\t\tp.f = p.f + 0\n\t\t\tsideEffect(q, i)\n\t\t\tgw.Done()\n\t\t}(i)\n\t}\n\tgw.Wait()\n\tx += 1"),
+		stNoLoop("go_param_shadows_later_use", "gw := new(sync.WaitGroup)\n\tgw.Add(1)\n\tgo func(y uint64) {\n\t\t*q = *q + y\n\t\tgw.Done()\n\t}(y + 1)\n\tx = x + y\n\tgw.Wait()\n\tx += *q"),
+		stNoLoop("go_two_params_rotated", "gw := new(sync.WaitGroup)\n\tgw.Add(1)\n\tcur := x + 5\n\tprev := x + 1\n\tgo func(cur uint64, prev uint64) {\n\t\t*q = *q + cur*10 + prev\n\t\tgw.Done()\n\t}(cur+1, cur)\n\tgw.Wait()\n\tx += *q + cur + prev"),
+		stNoLoop("go_bare_return_in_range", "gw := new(sync.WaitGroup)\n\tgw.Add(1)\n\tgo func() {\n\t\tfor _, v := range s {\n\t\t\tif v == 5 {\n\t\t\t\tgw.Done()\n\t\t\t\treturn\n\t\t\t}\n\t\t\t*q = *q + v + 1\n\t\t}\n\t\tgw.Done()\n\t}()\n\tgw.Wait()\n\tx += *q"),
+		stNoLoop("go_bare_return_in_nested_if", "gw := new(sync.WaitGroup)\n\tgw.Add(1)\n\tgo func() {\n\t\tif y > 0 {\n\t\t\tif y > 1 {\n\t\t\t\tgw.Done()\n\t\t\t\treturn\n\t\t\t}\n\t\t\t*q = *q + 10\n\t\t}\n\t\t*q = *q + 1\n\t\tgw.Done()\n\t}()\n\tgw.Wait()\n\tx += *q"),
+		stNoLoop("go_bare_return_early_exit", "gw := new(sync.WaitGroup)\n\tgw.Add(1)\n\tgo func() {\n\t\tif y > 1 {\n\t\t\tgw.Done()\n\t\t\treturn\n\t\t}\n\t\t*q = *q + 1\n\t\tgw.Done()\n\t}()\n\tgw.Wait()\n\tx += *q"),
+		st("closure_bare_return_in_range", "f := func() {\n\t\tfor _, v := range s {\n\t\t\tif v == 5 {\n\t\t\t\treturn\n\t\t\t}\n\t\t\t*q = *q + v + 1\n\t\t}\n\t}\n\tf()\n\tx += *q"),
 		st("bare_block", "{\n\t\tt := x + 1\n\t\tx = t * 2\n\t}\n\tx += 1"),
 		st("empty_block", "{\n\t}\n\tx += 1"),
 		st("empty_stmt", ";\n\tx += 1"),
